@@ -663,4 +663,134 @@ Section Sound.
           -- destruct Ht as [->|Ht]; [left; reflexivity|right; exact Ht].
           -- rewrite Harith in I2. repeat split; auto. pose proof (map_remove_length kvs key). lia.
   Qed.
+
+  (* ---- an unpopulated message marshals to no bytes ------------------------------------------------ *)
+  Lemma emit_field_default det rec f : emit_field det rec f (default_slot f) = [].
+  Proof.
+    unfold emit_field, default_slot. destruct (f_shape f); destruct (f_ty f) as [k|tm]; try reflexivity.
+    destruct k; reflexivity.
+  Qed.
+
+  Lemma concat_all_nil {A} (l : list (list A)) : (forall x, In x l -> x = []) -> concat l = [].
+  Proof.
+    induction l as [|x l IH]; intros H; [reflexivity|]. cbn [concat]. rewrite (H x (or_introl eq_refl)).
+    apply IH. intros y Hy. apply H. right. exact Hy.
+  Qed.
+
+  Lemma assemble_all_nil md (per : list (field * list byte)) : (forall p, In p per -> snd p = []) -> assemble md per = [].
+  Proof.
+    intros H. unfold assemble.
+    assert (E1 : forall l : list (field * list byte), (forall p, In p l -> In p per) -> concat (map snd l) = []).
+    { intros l Hl. apply concat_all_nil. intros x Hx. apply in_map_iff in Hx. destruct Hx as (p & <- & Hp). apply H. apply Hl. exact Hp. }
+    rewrite E1.
+    - cbn [app]. apply concat_all_nil. intros x Hx. apply in_map_iff in Hx. destruct Hx as (i & <- & _).
+      apply E1. intros p Hp. apply filter_In in Hp. tauto.
+    - intros p Hp. apply (Permutation_in _ (CodecSize.isort_perm _ _)) in Hp. apply filter_In in Hp. tauto.
+  Qed.
+
+  Lemma emit_fresh tm : emit sch false tm (fresh sch tm) = [].
+  Proof.
+    unfold fresh. destruct (get_msg sch tm) as [md|] eqn:Hg.
+    - unfold empty_msg. rewrite RoundTrip.emit_unfold, Hg, app_nil_r. apply assemble_all_nil.
+      intros p Hp. apply RoundTrip.zipf_in in Hp. destruct Hp as (i & f & s0 & Hf & Hs & ->). cbn [snd].
+      rewrite nth_error_map, Hf in Hs. injection Hs as <-. apply emit_field_default.
+    - cbn [emit]. rewrite Hg. reflexivity.
+  Qed.
+
+  Hypothesis Hwf : wf sch = true.
+
+  Lemma marshal_fresh tm : pulsar_marshal sch false tm (fresh sch tm) = Ok [].
+  Proof.
+    rewrite CodecSize.marshal_ok; [rewrite emit_fresh; reflexivity|exact Hwf|]. rewrite emit_fresh. cbn. reflexivity.
+  Qed.
+
+  (* ---- type URLs ---------------------------------------------------------------------------------- *)
+  Hypothesis Hnames : NoDup (map a_name ann).
+
+  Lemma beqb_refl a : beqb a a = true.
+  Proof. induction a as [|x a IH]; [reflexivity|]. cbn [beqb]. rewrite IH, andb_true_r. apply Byte.byte_dec_lb. reflexivity. Qed.
+
+  Lemma find_idx_url : forall (l : list mannot) i0 tm ma, NoDup (map a_name l) -> nth_error l tm = Some ma ->
+    find_idx (fun ma' => beqb (url_of ma) (url_of ma')) l i0 = Some (i0 + tm)%nat.
+  Proof.
+    induction l as [|m0 l IH]; intros i0 tm ma Hnd Hn; [destruct tm; discriminate|]. cbn [find_idx].
+    cbn [map] in Hnd. inversion Hnd as [|? ? Hnotin Hnd']; subst.
+    destruct tm as [|tm]; cbn [nth_error] in Hn.
+    - injection Hn as ->. rewrite beqb_refl. f_equal. lia.
+    - destruct (beqb (url_of ma) (url_of m0)) eqn:E.
+      + exfalso. apply beqb_eq in E. unfold url_of in E. injection E as E. apply Hnotin. rewrite <- E.
+        apply in_map. eapply nth_error_In. exact Hn.
+      + rewrite (IH (S i0) tm ma Hnd' Hn). f_equal. lia.
+  Qed.
+
+  Lemma resolve_url tm ma : nth_error ann tm = Some ma -> resolve ann (url_of ma) = Some tm.
+  Proof. intros H. unfold resolve. rewrite (find_idx_url ann 0 tm ma Hnames H). reflexivity. Qed.
+
+  (* ---- genAny -------------------------------------------------------------------------------------- *)
+  Lemma has_urls_spec : has_urls o = negb (is_nilb (o_any o)).
+  Proof. reflexivity. Qed.
+
+  Lemma pick_allowed i : i <= N.of_nat (length (o_any o)) - 1 -> o_any o <> [] ->
+    existsb (Nat.eqb (nth (N.to_nat i) (o_any o) 0%nat)) (o_any o) = true.
+  Proof.
+    intros Hi Hne. apply existsb_exists. exists (nth (N.to_nat i) (o_any o) 0%nat). split; [|apply Nat.eqb_refl].
+    apply nth_In. destruct (o_any o); [congruence|]. cbn [length] in *. lia.
+  Qed.
+
+  Lemma gen_any_sound child adepth ic tp res tp' : child_sound child (S adepth) -> (adepth <= 11)%nat ->
+    gen_any vr o sch ann child adepth ic tp = Ok (res, tp') ->
+    match res with
+    | None => has_urls o = false
+    | Some A => has_urls o = true /\ exists slots, A = VMsg slots [] /\ s_any o sch ann (SD (11 - adepth)) (11 - adepth) ic slots []
+    end.
+  Proof.
+    intros Hc Hd. unfold gen_any. rewrite has_urls_spec. destruct (is_nilb (o_any o)) eqn:En.
+    { intros E. injection E as <- <-. reflexivity. }
+    assert (Hne : o_any o <> []) by (destruct (o_any o); [discriminate|congruence]).
+    cbn [negb].
+    assert (Htail : forall tm t1, any_allowed vr o ic tm = true ->
+              match nth_error ann tm with
+              | None => Err
+              | Some ma =>
+                match child (S adepth) INoField tm (fresh sch tm) t1 with
+                | Ok (r, t2) =>
+                  match pulsar_marshal sch false tm (match r with Some v => v | None => fresh sch tm end) with
+                  | Ok bs => Ok (Some (VMsg [VBytes (url_of ma); VBytes bs] []), t2)
+                  | Err => Err | Panic => Panic | OutOfFuel => OutOfFuel
+                  end
+                | Err => Err | Panic => Panic | OutOfFuel => OutOfFuel
+                end
+              end = Ok (res, tp') ->
+              match res with
+              | None => true = false
+              | Some A => true = true /\ exists slots, A = VMsg slots [] /\ s_any o sch ann (SD (11 - adepth)) (11 - adepth) ic slots []
+              end).
+    { intros tm t1 Hal. destruct (nth_error ann tm) as [ma|] eqn:Ea; [|discriminate].
+      destruct (child (S adepth) INoField tm (fresh sch tm) t1) as [[r t2]| | |] eqn:Ec; try discriminate.
+      destruct (pulsar_marshal sch false tm (match r with Some v => v | None => fresh sch tm end)) as [bs| | |] eqn:Em; try discriminate.
+      intros E. injection E as <- <-. split; [reflexivity|]. eexists. split; [reflexivity|].
+      unfold s_any. split; [reflexivity|]. exists (url_of ma), (VBytes bs). split; [reflexivity|]. split; [right; eexists; reflexivity|].
+      rewrite has_urls_spec, En. cbn [negb]. exists tm, ma. split; [exact Ea|]. split; [reflexivity|].
+      split; [apply resolve_url; exact Ea|]. split; [exact Hal|].
+      specialize (Hc _ _ _ _ _ _ Ec). cbn beta iota in Hc.
+      destruct (2 <=? 11 - adepth)%nat eqn:E2.
+      - apply Nat.leb_le in E2. destruct r as [pv|].
+        + destruct Hc as (_ & _ & _ & (md & ma' & Hg & Hn) & Hs). exists pv, bs. split; [|split; [exact Em|reflexivity]].
+          replace (11 - adepth)%nat with (12 - S adepth)%nat by lia. apply (Hs 0).
+          replace (12 - S adepth)%nat with (S (11 - S adepth)) by lia. eapply fresh_cur_ok; eauto.
+        + exfalso. destruct Hc as [Hc|[Hc1 Hc2]]; [lia|]. rewrite has_urls_spec, En in Hc2. discriminate.
+      - apply Nat.leb_gt in E2. destruct r as [pv|].
+        + exfalso. destruct Hc as (Hc & _). lia.
+        + rewrite marshal_fresh in Em. injection Em as <-. reflexivity. }
+    destruct ic as [|[ai|]].
+    - cbn [v_any_nil_field repaired].
+      pose proof (draw_n_range 0 (N.of_nat (length (o_any o)) - 1) tp ltac:(lia)) as Hr.
+      destruct (draw_n 0 (N.of_nat (length (o_any o)) - 1) tp) as [i t]. cbn [fst] in Hr. apply Htail.
+      unfold any_allowed. cbn [v_any_nil_field repaired andb]. apply pick_allowed; [lia|exact Hne].
+    - destruct (nth_error (o_hints o) ai) as [[tm|]|] eqn:Eh; try discriminate. apply Htail.
+      unfold any_allowed. rewrite Eh. apply Nat.eqb_refl.
+    - pose proof (draw_n_range 0 (N.of_nat (length (o_any o)) - 1) tp ltac:(lia)) as Hr.
+      destruct (draw_n 0 (N.of_nat (length (o_any o)) - 1) tp) as [i t]. cbn [fst] in Hr. apply Htail.
+      unfold any_allowed. apply pick_allowed; [lia|exact Hne].
+  Qed.
 End Sound.
